@@ -97,6 +97,7 @@ type World struct {
 	Flight  []*Msg
 	seq     int
 	Mons    []*Mon
+	SubHook func(n *Node) // driver's part of the SubscribeForTxs callback (runs before the listener is registered)
 	Viols   []Violation
 	KeepLog bool
 	Cut     map[int]bool // isolated identities (messages crossing the cut are lost)
